@@ -1,4 +1,5 @@
 import Mitx.Parser.RoundTripMain
+import Mitx.Parser.Lex
 /-! # C03 — formula strings evaluate to the value mathematics assigns them
 
 Property theorems only. Model: token-level PEG parser `Mitx/Parser/Syntax.lean`, lexer `Mitx/Parser/Lex.lean`,
